@@ -9,7 +9,10 @@ every kernel class for every dimension in {1,2,3} the class accepts.
 * `kernel/dwdq/gradient_h` run with rij = q*h, h symbolic (integer exponents),
   `exp(-q*q)` the symbol E; comparisons of `q` with constants are decided per
   region (every open interval between the constants found, and every constant
-  itself), `rij > c` is the boolean parameter `rpos`, comparisons on
+  itself; a constant treated unlike BOTH neighbouring intervals becomes a
+  degenerate piece [b, b] of its own -- never merged into a neighbour -- so the
+  Lean table obligations see the hole), `rij > c` is the boolean parameter
+  `rpos`, comparisons on
   `self.dim` are concrete;  every result must have the form
   fac * h^-k * E^e * P(q)  with e in {0,1} -- P is emitted as a coefficient list;
 * `gradient` runs with independent symbols rij, h, xij[i] and the opaque
@@ -204,6 +207,19 @@ class Exec:
         raise Unsupported('expression ' + ast.dump(n))
 
     def cond(self, n):
+        # `A and B`, `A or B`, `not A`, `a < q < b`: every operand is evaluated
+        # (conditions have no side effects; the rij threshold must be recorded
+        # whichever way the other operands go)
+        if isinstance(n, ast.BoolOp) and isinstance(n.op, (ast.And, ast.Or)):
+            vals = [self.cond(v) for v in n.values]
+            return all(vals) if isinstance(n.op, ast.And) else any(vals)
+        if isinstance(n, ast.UnaryOp) and isinstance(n.op, ast.Not):
+            return not self.cond(n.operand)
+        if isinstance(n, ast.Compare) and len(n.ops) > 1:
+            terms = [n.left] + list(n.comparators)
+            vals = [self.cond(ast.Compare(left=terms[i], ops=[n.ops[i]], comparators=[terms[i + 1]]))
+                    for i in range(len(n.ops))]
+            return all(vals)
         if not (isinstance(n, ast.Compare) and len(n.ops) == 1):
             raise Unsupported('condition ' + ast.dump(n))
         a, b = self.ev(n.left), self.ev(n.comparators[0])
@@ -219,6 +235,10 @@ class Exec:
             if self.qsample is None:
                 raise Unsupported('comparison on q outside a radial method')
             return fn(self.qsample, b.cval())
+        if b == Q and a.is_const():        # `1.0 < q`
+            if self.qsample is None:
+                raise Unsupported('comparison on q outside a radial method')
+            return fn(a.cval(), self.qsample)
         rsym = (Q * P.sym('h')) if self.mode == 'radial' else P.sym('rij')
         if a == rsym and b.is_const() and isinstance(op, ast.Gt):
             self.rthresh.add(b.cval())
@@ -283,12 +303,20 @@ class Exec:
 # --------------------------------------------------------------------------
 
 def q_constants(fn):
+    """every constant `q` is compared with, in either order, also inside
+    and/or/not and chained comparisons"""
     out = set()
     for n in ast.walk(fn):
-        if isinstance(n, ast.Compare) and len(n.ops) == 1:
-            l, r = n.left, n.comparators[0]
-            if isinstance(l, ast.Name) and l.id == 'q' and isinstance(r, ast.Constant):
-                out.add(const_of(r))
+        if isinstance(n, ast.Compare):
+            terms = [n.left] + list(n.comparators)
+            for l, r in zip(terms, terms[1:]):
+                for x, y in ((l, r), (r, l)):
+                    if isinstance(x, ast.Name) and x.id == 'q':
+                        if isinstance(y, ast.UnaryOp) and isinstance(y.op, ast.USub) \
+                                and isinstance(y.operand, ast.Constant):
+                            out.add(-const_of(y.operand))
+                        elif isinstance(y, ast.Constant):
+                            out.add(const_of(y))
     return out
 
 
@@ -453,12 +481,20 @@ def analyse(cls, dim):
         ptpolys = res[i + 1][3]
         nxt = res[i + 2][3]
         if ptpolys == polys:
-            incl = True
+            pieces.append((a, b, True, polys))
         elif ptpolys == nxt:
-            incl = False
+            pieces.append((a, b, False, polys))
         else:
-            raise Unsupported('%s: q = %s is treated unlike both neighbours' % (cls.name, b))
-        pieces.append((a, b, incl, polys))
+            # the single point q = b is treated unlike both neighbours (e.g.
+            # `if q < 1: … elif q > 1 and q < 2: …` leaves q == 1 to the
+            # initial values).  Represent that faithfully: [a, b) followed by
+            # the degenerate piece [b, b] with the point's own polynomials --
+            # `lookup` then returns exactly what the code computes at q = b, and
+            # the table obligations (`chainOk`: lo < hi on every piece, hence
+            # `table_wellformed`; `gradhOk`/`derivOk`/`c1Ok` on the point piece)
+            # are left to fail in Lean rather than being decided here.
+            pieces.append((a, b, False, polys))
+            pieces.append((b, b, True, ptpolys))
         i += 2
     tail = res[-1][3]
     comps_pos, t1 = run_grad(methods, attrs, True)
@@ -573,7 +609,7 @@ def emit(kernels):
         o.append('    pieces := [')
         ps = []
         for (a, b, incl, polys) in k['pieces']:
-            cuts = cert_cuts(list(polys[1]), a, b)
+            cuts = cert_cuts(list(polys[1]), a, b) if a < b else None
             if cuts is None:
                 cuts = [a, b]       # no certificate: the Lean check decides
             ps.append('    ' + emit_piece(a, b, incl, polys, cuts))
